@@ -24,6 +24,21 @@ CLAIMS = {
              'Tie: T2 on transitions (corpus, random spaces, exhaustive small grids), trajectories of all 21 shipped configurations and random '
              'compositions, functional_step from arbitrary states of the space with every reward component, membership predicates on near misses.',
         design='8/C01', note=TB + ' Rewards are generated as floats (the documented type); reward finiteness assumes |parameter| x (height+width) does not overflow.'),
+    'C02': dict(
+        level='proof',
+        technique='Coq proof of RNG routing (no draw on the library-level generator for any built-in component, composition, operation sequence or layer, by structural induction), interleaving independence over a two-stream interpreter, set-order independence, debug irrelevance + runtime monitors (global generator states, recording proxies, processes under several PYTHONHASHSEED)',
+        text='In a functional model reproducibility is immediate; the content of C02 is ROUTING and HIDDEN INPUTS, and that is what is proved (Props/C02.v): every draw '
+             'of the model names the generator it consumes; given the environment\'s generator no built-in transition / reset / observation function, no chain, no '
+             'environment assembled from built-in parts, through any operation sequence at the inner, outer, gym or wrapper layer, ever draws from the library-level '
+             'generator (NoGlobal, by structural induction over all components and compositions); hence (two-stream interpreter run2) the library stream is untouched '
+             'and outputs do not depend on it; INTERLEAVING: for any schedule of operations over any number of environments, each environment ends exactly where it '
+             'would have ended alone on its own operations and stream; the reset functions taking a SET of colours are invariant under permuting it (what hash '
+             'randomisation changes); any operation that succeeds with the debug flag on gives the same result and consumes the same randomness with it off.  '
+             'What a Gallina model cannot carry -- other interpreter processes, python\'s `random` / numpy\'s legacy global generator -- is observed: (a) every registered '
+             'function called with a generator on inputs that make it draw: nothing on the library-level proxy, global states unchanged, draw log (incl. WHICH generator) '
+             'vs the model; (b) equally seeded GridWorld pairs, one interleaved with a third environment and disturbed global generators, opposite debug flags; '
+             '(c) scripted episodes in worker processes under several PYTHONHASHSEED x debug on/off: byte-identical transcripts.',
+        design='8/C02', note=TB + ' Construction (factory_env_from_data samples one state and observation with the library generator to size the spaces) precedes seeding and is outside the claim. The cross-process clause is runtime correspondence, partial by nature (sampled hash seeds).'),
     'C04': dict(
         level='proof',
         technique='Coq proof (machine invariant "the memoised observation belongs to the current state" over all operation sequences and outcomes; refinement of the stateful trajectory to functional threading) + operation-sequence differential check',
